@@ -10,6 +10,68 @@ OP2 = ["add", "sub", "mul", "div", "pow", "log"]
 DEG = {"sind": "sin", "cosd": "cos", "tand": "tan", "secd": "sec", "cscd": "csc", "cotd": "cot"}
 
 
+def check_fresh_operand_values(tree, path):
+    fn = find_def(tree, "differentiate")
+    if fn is None:
+        raise Unsupported("{}: def differentiate missing".format(path))
+    # find the wrapper applied to formula.operands
+    wrappers = set()
+    for node in ast.walk(fn):
+        if isinstance(node, ast.Call) and isinstance(node.func, ast.Name) and len(node.args) == 1 \
+                and not node.keywords and isinstance(node.args[0], ast.Name):
+            wrappers.add(node.func.id)   # W(operand)
+        if isinstance(node, ast.Call) and isinstance(node.func, ast.Name) and node.func.id == "map" \
+                and len(node.args) == 2 and isinstance(node.args[0], ast.Name):
+            wrappers.add(node.args[0].id)
+    uses_operands = any(isinstance(n, ast.Attribute) and n.attr == "operands" for n in ast.walk(fn))
+    starred_raw = any(isinstance(n, ast.Starred) and isinstance(n.value, ast.Attribute)
+                      and n.value.attr == "operands" for n in ast.walk(fn))
+    classes = {c.name: c for c in tree.body if isinstance(c, ast.ClassDef)}
+    good = [w for w in wrappers if w in classes and _is_fresh_view(classes[w])]
+    if not uses_operands or starred_raw or not good:
+        raise Unsupported(
+            "{}: differentiate() passes the operands to the derivative rules without a view whose "
+            ".value is _evaluate_formula(operand): `x.value` in DIFFERENTIATORS is then the "
+            "memoised, method-dispatching public value (model assumes fresh evaluation)".format(
+                where(fn, path)))
+
+
+def _is_fresh_view(cls):
+    """class W: __init__(self, operand): self.A = operand; value -> _evaluate_formula(self.A);
+    derivative(self, other) -> self.A.derivative(other)"""
+    attr = None
+    ok_value = ok_deriv = False
+    for item in cls.body:
+        if isinstance(item, ast.FunctionDef) and item.name == "__init__":
+            for st in item.body:
+                if isinstance(st, ast.Assign) and len(st.targets) == 1 and isinstance(
+                        st.targets[0], ast.Attribute) and isinstance(st.value, ast.Name) and \
+                        len(item.args.args) == 2 and st.value.id == item.args.args[1].arg:
+                    attr = st.targets[0].attr
+    if attr is None:
+        return False
+
+    def is_self_attr(n):
+        return isinstance(n, ast.Attribute) and n.attr == attr and isinstance(n.value, ast.Name) \
+            and n.value.id == "self"
+    for item in cls.body:
+        if not isinstance(item, ast.FunctionDef):
+            continue
+        rets = [s for s in item.body if isinstance(s, ast.Return)]
+        if item.name == "value" and len(rets) == 1:
+            r = rets[0].value
+            ok_value = (isinstance(r, ast.Call) and isinstance(r.func, ast.Name)
+                        and r.func.id == "_evaluate_formula" and len(r.args) == 1
+                        and is_self_attr(r.args[0]) and not r.keywords)
+        if item.name == "derivative" and len(rets) == 1 and len(item.args.args) == 2:
+            r = rets[0].value
+            ok_deriv = (isinstance(r, ast.Call) and isinstance(r.func, ast.Attribute)
+                        and r.func.attr == "derivative" and is_self_attr(r.func.value)
+                        and len(r.args) == 1 and isinstance(r.args[0], ast.Name)
+                        and r.args[0].id == item.args.args[1].arg)
+    return ok_value and ok_deriv
+
+
 def gen():
     path = "qexpy/data/operations.py"
     lits = literals()
@@ -76,6 +138,14 @@ def gen():
         if sorted(tab) != sorted(want) and not broken:
             broken.append("{}: keys of {} are {} (model alphabet {})".format(
                 path, nm, sorted(tab), sorted(want)))
+
+    # ---- what does `x.value` mean inside the rules?  The model (Expr.diff) uses the operand's
+    # formula evaluated afresh (`eval env a`).  That is what the code does only if
+    # `differentiate` hands the rules a view whose `.value` is `_evaluate_formula(operand)`.
+    try:
+        check_fresh_operand_values(tree, path)
+    except Unsupported as e:
+        broken.append(str(e))
 
     # ---- degree variants
     deg = {}
